@@ -1210,6 +1210,13 @@ func (l *Ledger) VerifyBlock(block *pb.InternalBlock, logid string) (bool, error
 		return false, nil
 	}
 
+	if int(block.TxCount) != len(block.Transactions) {
+		// tx_count is part of the block id; the merkle root alone does not fix the number of
+		// transactions (a repeated last transaction yields the same root as the padded tree)
+		l.xlog.Warn("VerifyBlock tx count error", "logid", logid, "tx_count", block.TxCount, "transactions", len(block.Transactions))
+		return false, nil
+	}
+
 	errv := VerifyMerkle(block)
 	if errv != nil {
 		l.xlog.Warn("VerifyMerkle error", "logid", logid, "error", errv)
